@@ -664,7 +664,7 @@ func (e *Engine) doCallValues(p *Path, fr *Frame, c *ssa.CallCommon, fnVal Value
 	if ct != nil {
 		ct.Used = true
 	}
-	if (ct != nil && ct.Inline) || (ct == nil && fn.Parent() != nil && len(fn.Blocks) > 0) || (ct == nil && e.inInit && len(fn.Blocks) > 0 && false) {
+	if (ct != nil && ct.Inline) || (ct == nil && fn.Parent() != nil && len(fn.Blocks) > 0) || (ct == nil && e.inInit && len(fn.Blocks) > 0 && strings.HasPrefix(fn.Name(), "init#") && fn.Pkg == e.curFn.Pkg) {
 		nf := e.newFrame(fn, args, bind)
 		nf.retDst = dst
 		nf.isDefer = isDefer
